@@ -1,9 +1,9 @@
 #!/bin/sh
 # run_thorough.sh [Cxx ...]: thorough tier of the listed (default: all) checks, each under a time limit
-# (VERIF_THOROUGH_LIMIT seconds, default 2700); summary on stdout. A check that hits the limit is reported
+# (VERIF_THOROUGH_LIMIT seconds, default 3600); summary on stdout. A check that hits the limit is reported
 # as TIMEOUT - its thorough bounds are then too large for this machine and must be reduced.
 cd "$(dirname "$0")/.." || exit 2; mkdir -p out
-LIM=${VERIF_THOROUGH_LIMIT:-2700}
+LIM=${VERIF_THOROUGH_LIMIT:-3600}
 LIST=${@:-$(python3 -c "import json;print(' '.join(c['property_id'] for c in json.load(open('MANIFEST.json'))['checks']))")}
 for p in $LIST; do
   t0=$(date +%s)
